@@ -54,7 +54,7 @@ PROPS = {
     "C03": dict(
         module="OrbitModel.Properties.C03",
         theorems=["Orbit.C03.visible_entries_are_authored_by_writers", "Orbit.C03.forged_or_unauthorised_never_visible",
-                  "Orbit.C03.local_write_by_non_writer_fails", "Orbit.C03.pinned_tree_accepts_copied_id", "Orbit.C03.reload_route_joins_only_this_logs_entries"],
+                  "Orbit.C03.local_write_by_non_writer_fails", "Orbit.C03.pinned_tree_accepts_copied_id", "Orbit.C03.reload_route_joins_only_this_logs_entries", "Orbit.C03.resolve_error_is_checked_tied_to_go_text"],
         families=[("forge", 150, 4000, 10), ("address", 30, 600, 10)],
         corr_fields={"values", "heads", "idx", "len", "ack", "sync", "loadq", "rev"},
         nontrivial=lambda lines: sum(1 for l in lines if l.startswith("forged ") and " err" not in l) >= 1 and sum(1 for l in lines if l.startswith("op inject")) >= 1,
@@ -78,7 +78,7 @@ PROPS = {
         module="OrbitModel.Properties.C05",
         theorems=["Orbit.C05.reload_sources_tied_to_go_text", "Orbit.C05.persistence_order_tied_to_go_text", "Orbit.C05.acknowledged_survive_any_crash", "Orbit.C05.cached_heads_cover_the_log",
                   "Orbit.C05.replication_never_forgets_cached_heads", "Orbit.C05.on_fully_loaded_stores_the_cache_is_the_heads_of_the_log",
-                  "Orbit.C05.limited_load_then_replication_forgot_a_branch_before_the_fix", "Orbit.C05.reload_joins_only_entries_join_accepts", "Orbit.C05.refused_ancestor_lost_the_valid_entries_above_it_before_the_fix"],
+                  "Orbit.C05.limited_load_then_replication_forgot_a_branch_before_the_fix", "Orbit.C05.reload_joins_only_entries_join_accepts", "Orbit.C05.refused_ancestor_lost_the_valid_entries_above_it_before_the_fix", "Orbit.C05.replication_never_shrinks_what_the_cache_reaches"],
         families=[("routes", 100, 3000, 14), ("kv", 40, 1000, 12), ("reload", 40, 1000, 12), ("limit", 40, 1000, 12), ("forge", 30, 800, 10)],
         corr_fields={"values", "heads", "idx", "len", "local", "remote", "load", "rev"},
         nontrivial=lambda lines: any(l.startswith("restarted ") for l in lines) and sum(1 for l in lines if l.startswith("entry ")) >= 2,
@@ -135,7 +135,7 @@ PROPS = {
     "C09": dict(
         module="OrbitModel.Properties.C09",
         theorems=["Orbit.C09.other_databases_untouched", "Orbit.C09.broadcast_changes_only_the_source",
-                  "Orbit.C09.published_under_own_address", "Orbit.C09.pinned_tree_cross_talk"],
+                  "Orbit.C09.published_under_own_address", "Orbit.C09.pinned_tree_cross_talk", "Orbit.C09.store_topic_is_its_address_tied_to_go_text"],
         families=[("multidb", 100, 3000, 10)],
         corr_fields={"values", "heads", "idx", "len", "status", "loadq", "rev"},
         nontrivial=lambda lines: sum(1 for l in lines if l.startswith("opened ")) >= 1 and sum(1 for l in lines if l.startswith("ack ")) >= 2,
@@ -184,7 +184,7 @@ PROPS = {
                   "Orbit.C20.each_change_reported_once", "Orbit.C20.own_messages_filtered", "Orbit.C20.channel_name_symmetric",
                   "Orbit.C20.channel_name_identifies_pair", "Orbit.C20.frame_roundtrip", "Orbit.C20.length_prefix_roundtrip",
                   "Orbit.C20.oversize_refused", "Orbit.C20.accepted_length_within_limit", "Orbit.C20.tied_to_go_text",
-                  "Orbit.C20.every_watcher_is_told_about_present_peers", "Orbit.C20.shared_membership_hid_present_peers_from_a_later_watcher"],
+                  "Orbit.C20.every_watcher_is_told_about_present_peers", "Orbit.C20.shared_membership_hid_present_peers_from_a_later_watcher", "Orbit.C20.each_peer_is_subscribed_once", "Orbit.C20.connect_order_tied_to_go_text", "Orbit.C20.a_lock_released_around_subscribe_would_deliver_twice"],
         families=[("transport", 100, 4000, 8), ("oneonone", 3, 40, 1)],
         corr_fields={"tevents"},
         nontrivial=lambda lines: sum(1 for l in lines if l.startswith("op tpeers") and ";" in l) >= 1 or any(l.startswith("op tone") for l in lines),
@@ -220,7 +220,7 @@ PROPS = {
     "C15": dict(
         module="OrbitModel.Properties.C15",
         theorems=["Orbit.C15.effective_limit", "Orbit.C15.trim_panics_iff", "Orbit.C15.trim_keeps_newest",
-                  "Orbit.C15.load_lists_newest_n_of_a_chain", "Orbit.C15.load_one_head_never_panics_partial",
+                  "Orbit.C15.load_lists_newest_n_of_a_chain", "Orbit.C15.load_one_head_never_panics", "Orbit.C15.estimated_trim_panicked_on_a_log_with_holes_before_the_fix",
                   "Orbit.C15.limit_normalisation_tied_to_go_text", "Orbit.C15.pinned_tree_panicked_or_emptied"],
         families=[("limit", 80, 2500, 12)],
         corr_fields={"values", "heads", "idx", "len", "load", "local", "remote"},
@@ -268,7 +268,7 @@ PROPS = {
         theorems=["Orbit.C19.never_regresses", "Orbit.C19.progress_le_max", "Orbit.C19.at_rest_equals_len",
                   "Orbit.C19.pinned_tree_max_regresses", "Orbit.C19.tied_to_go_text", "Orbit.C19.status_raised_with_the_append_tied_to_go_text", "Orbit.C19.foreign_heads_are_not_counted", "Orbit.C19.foreign_head_was_counted_before_the_fix",
                   "Orbit.C19.clock_times_le_entry_count", "Orbit.C19.at_rest_after_snapshot_load",
-                  "Orbit.C19.snapshot_load_counted_unmerged_records_before_the_fix", "Orbit.C19.snapshot_load_order_tied_to_go_text"],
+                  "Orbit.C19.snapshot_load_counted_unmerged_records_before_the_fix", "Orbit.C19.snapshot_load_order_tied_to_go_text", "Orbit.C19.at_rest_with_a_complete_log"],
         families=[("status", 80, 2500, 8), ("kv", 40, 1000, 14), ("routes", 40, 1000, 12), ("snapshot", 40, 1000, 10)],
         corr_fields={"status", "len", "rev"},
         nontrivial=nt_any3,
@@ -291,7 +291,7 @@ MANIFEST_TEXT = {
         note="Trusted: Lean kernel + standard axioms; injectivity of the manifest CID (hash + dag-cbor) is a hypothesis; the Create/Open model is hand-written (its abstractions are listed at the top of Model/OpenCreate.lean) and run against the real instance on every create/open of the address family; only the default ipfs access controller is modelled.",
         technique="Lean 4 proof (path cleaning lemmas, parse/print inverse, injectivity) with differential correspondence over adversarial names"),
     "C15": dict(
-        text="Kernel-checked theorems: the effective limit (n <= 0 falls back to MaxHistory, non-positive means all); Join(size) panics exactly when size exceeds the length and otherwise keeps the newest size entries in order; for EVERY chain length and EVERY limit, Load(n) on a fresh store with one cached head lists exactly the newest min(n,T) entries oldest first (all for n <= 0) even when the fetcher over-fetches; loading one head never panics on a closed log. The pinned tree's panic (n > total) and emptied log (n = 0) are decide-checked and were replayed on the real store before the fix: commit. The limit family loads real multi-writer logs with every boundary limit and checks count, order, newest and most-recent-n on the listing.",
+        text="Kernel-checked theorems: the effective limit (n <= 0 falls back to MaxHistory, non-positive means all); Join(size) panics exactly when size exceeds the length and otherwise keeps the newest size entries in order; for EVERY chain length and EVERY limit, Load(n) on a fresh store with one cached head lists exactly the newest min(n,T) entries oldest first (all for n <= 0) even when the fetcher over-fetches; loading one head never panics, for EVERY log the store may hold (closed or with holes, fully or partially loaded), every fetched log and every amount: the merge asks for no trim and the trim is only asked for once the listing is longer than the amount (finding F30, fix: commit - the estimate-based trim panicked on logs with holes: decide-checked witness, reproduced by Load(n) on an open, partially loaded store). The pinned tree's panic (n > total) and emptied log (n = 0) are decide-checked and were replayed on the real store before the fix: commit. The limit family loads real multi-writer logs with every boundary limit, lets partially loaded stores replicate, write and load again ('load more'), and checks count, order, newest and most-recent-n on the listing.",
         note="Partial: for several cached heads the count/order/newest statement is checked on the implementation and on decide-checked instances, not proved in general; the bounded fetcher is a parameter with a stated contract.",
         technique="Lean 4 proof (trim/Join size lemmas, chain induction) with differential correspondence over boundary limits"),
     "C16": dict(
